@@ -194,6 +194,10 @@ def run(module, params, nshards=16, case_timeout=120, total_timeout=3000, libpat
                 pass
             stderr = sh.stderr_tail.decode(errors='replace')
             case = dict(index=sh.last_begin, info=sh.last_begin_info)
+            # a precondition class announced by the check for the case in flight becomes part of crash / hang keys
+            ksuf = ''
+            if isinstance(sh.last_begin_info, dict) and sh.last_begin_info.get('key_suffix'):
+                ksuf = ':' + str(sh.last_begin_info['key_suffix'])
             if sh.hang_killed:
                 res.hangs += 1
                 first_time = sh.last_begin is not None and sh.last_begin not in sh.hung
@@ -206,7 +210,7 @@ def run(module, params, nshards=16, case_timeout=120, total_timeout=3000, libpat
                     start(sh)
                     continue
                 nhang_viol[0] += 1
-                res.violations.append(dict(t='viol', key='hang:%s' % (hang_key or 'case'),
+                res.violations.append(dict(t='viol', key='hang:%s%s' % (hang_key or 'case', ksuf),
                                            detail='the case in flight made no progress for %ds, twice; last stderr: %s'
                                                   % (case_timeout, stderr[-300:]),
                                            case=case, shard=sh.idx, hang=True))
@@ -215,7 +219,7 @@ def run(module, params, nshards=16, case_timeout=120, total_timeout=3000, libpat
                 keys = sanitizer.parse_report(report + '\n' + stderr)
                 if keys:
                     for key, summary in keys[:3]:
-                        res.violations.append(dict(t='viol', key=key, detail=summary, case=case, shard=sh.idx,
+                        res.violations.append(dict(t='viol', key=key + ksuf, detail=summary, case=case, shard=sh.idx,
                                                    crash=True))
                 else:
                     tail = stderr[-1500:]
@@ -223,7 +227,7 @@ def run(module, params, nshards=16, case_timeout=120, total_timeout=3000, libpat
                         res.inconclusive.append('shard %d: worker failed: %s' % (sh.idx, tail[-600:]))
                         active.discard(i)
                         continue
-                    res.violations.append(dict(t='viol', key='crash:signal%d' % (-rc if rc < 0 else rc),
+                    res.violations.append(dict(t='viol', key='crash:signal%d%s' % (-rc if rc < 0 else rc, ksuf),
                                                detail=tail, case=case, shard=sh.idx, crash=True))
             if sh.last_begin is None or sh.restarts >= max_restarts:
                 res.inconclusive.append('shard %d: cannot make progress (rc=%s)' % (sh.idx, rc))
